@@ -109,21 +109,28 @@ def _truncate_by_interpretation(db, f):
 
 def body(chk, db, cfgname):
     r1 = chk.rule("C19-R1", "a part is skipped only if every block of its stripe is discarded (guard = disjunction of isRetained over exactly the blocks used)", "F1 dominance", 4)
-    cases = [("Pomerol::GreensFunction", "Pomerol::GreensFunctionPart"), ("Pomerol::Susceptibility", "Pomerol::SusceptibilityPart")]
+    cases = [("Pomerol::GreensFunction", "Pomerol::GreensFunctionPart"), ("Pomerol::Susceptibility", "Pomerol::SusceptibilityPart"),
+             ("Pomerol::EnsembleAverage", None)]
     for owner, part in cases:
         f = db.fn(owner + "::prepare", nparams=0)
         ctx = Ctx(f, db)
         at = guard_facts(f, ctx)
-        news = [j for j, n in f.walk(f.body) if n["k"] == "new" and n["at"] == part]
+        if part is not None:
+            news = [j for j, n in f.walk(f.body) if n["k"] == "new" and n["at"] == part]
+            what = "new " + part
+        else:
+            # the ensemble average has no parts: the contribution of a block is a call of compute()
+            news = f.calls(cname=owner + "::compute")
+            what = "call of compute()"
         if len(news) != 1:
-            raise AnalysisBroken("%s::prepare: expected one new %s" % (owner, part))
+            raise AnalysisBroken("%s::prepare: expected one %s" % (owner, what))
         N = news[0]
         fa = at.get(f.cfg.pos1(N), frozenset())
         rw = lh.rw_facts(fa)
         nk = ctx.key(N)
         dmk = fld(owner + "::DM")
         used = set()
-        for a in nk[2][2:]:
+        for a in (nk[2][2:] if part is not None else nk[3:]):
             a = lh.strip_cast(a)
             if a[0] == "mcall" and a[1] == DM + "::getPart" and a[2] == dmk:
                 used.add(rw(deconv(a[3])))
@@ -158,7 +165,22 @@ def body(chk, db, cfgname):
                 lack = sorted(need - notret, key=repr)
                 missing = "a stripe can be skipped although block %s was not found discarded (tests on the skipping path: %s)" % (
                     ", ".join(lh.short(x) if x[0] == "field" else str(x[-1]) for x in lack), ", ".join(sorted(fact_str(x) for x in pf if x[0] in ("true", "false") and key_contains(x[1], isret))) or "none")
-        if nskip == 0:
+        # leaving the stripe loop early drops every later stripe, whatever its blocks are
+        early = None
+        for L_ in Ls:
+            for e_, kind_ in loop_shape(f, ctx, L_)["exits"]:
+                if kind_ in ("break", "return", "goto"):
+                    efa = at.get(f.cfg.pos1(e_), frozenset())
+                    if any(x[0] in ("true", "false") and key_contains(x[1], isret) for x in efa):
+                        early = (e_, "the loop over the stripes is left (%s at line %s) when a block tests as %s: every later stripe is dropped whether or not its blocks are retained" % (
+                            kind_, f.loc(e_).rsplit(":", 1)[-1], "discarded" if any(x[0] == "false" and key_contains(x[1], isret) for x in efa) else "retained"))
+                    elif early is None:
+                        early = (e_, None)
+        if early is not None and early[1] is not None:
+            r1.bad(site, f.loc(early[0]), early[1], cfgname)
+        elif early is not None:
+            r1.unknown(site, f.loc(early[0]), "the loop over the stripes has an early exit whose condition is not analysed", cfgname)
+        elif nskip == 0:
             r1.ok(site, f.loc(N), "the part is created for every matching stripe (no path skips it)", cfgname)
         elif missing:
             r1.bad(site, f.loc(N), missing + ": a contribution above the tolerance is dropped", cfgname)
@@ -274,28 +296,6 @@ def body(chk, db, cfgname):
         r1.unknown(site, f.loc(N), "the retention guard of the two-particle parts is written in a form that is not analysed (no boolean flag set in a loop over the stripe)", cfgname)
     else:
         r1.bad(site, f.loc(N), why, cfgname)
-    # ensemble average
-    f = db.fn("Pomerol::EnsembleAverage::prepare", nparams=0)
-    ctx = Ctx(f, db)
-    at = guard_facts(f, ctx)
-    calls = f.calls(cname="Pomerol::EnsembleAverage::compute")
-    if len(calls) != 1:
-        raise AnalysisBroken("EnsembleAverage::prepare: expected one compute call")
-    C = calls[0]
-    fa = at.get(f.cfg.pos1(C), frozenset())
-    rw = lh.rw_facts(fa)
-    k = ctx.key(C)
-    dmk = fld("Pomerol::EnsembleAverage::DM")
-    used = {rw(deconv(lh.strip_cast(a)[3])) for a in k[3:] if lh.strip_cast(a)[0] == "mcall" and lh.strip_cast(a)[1] == DM + "::getPart"}
-    tested = {rw(deconv(x[1][3])) for x in fa if x[0] == "true" and x[1][0] == "mcall" and x[1][1] == DM + "::isRetained" and x[1][2] == dmk}
-    site = "Pomerol::EnsembleAverage::prepare:retained-guard"
-    if used and tested == used:
-        r1.ok(site, f.loc(C), "block contributes iff it is retained", cfgname)
-    elif not tested:
-        r1.ok(site, f.loc(C), "no truncation guard", cfgname)
-    else:
-        r1.bad(site, f.loc(C), "the retention test looks at another block than the one whose weights are used", cfgname)
-
     r2 = chk.rule("C19-R2", "a block is discarded only if none of its states has weight above the tolerance; flags are per block", "F1 dominance", 4)
     f = db.fn(DMP + "::truncate", nparams=1)
     ctx = Ctx(f, db)
